@@ -49,6 +49,9 @@ func eventClass(e string) string {
 	if k == "cli" || k == "ucli" {
 		return k + ":" + arg
 	}
+	if k == "comp" {
+		return "comp:" + compLabel(arg)
+	}
 	if k == "fcli" {
 		// per command and number of flags, not per variant (the evidence would not be readable)
 		return fmt.Sprintf("fcli:%s+%d-flags", strings.SplitN(arg, "+", 2)[0], strings.Count(arg, "+"))
